@@ -842,5 +842,8 @@ PROPS["C07"]["explanation"] += " (ONEFIELD) the user-record size VSread's piece-
 PROPS["C06"]["rules"] = PROPS["C06"]["rules"] + [rules_conv.rule_element_count_from_type_size]
 PROPS["C06"]["explanation"] += " (ELEMCOUNT) an element count handed to a conversion routine that is a quotient is divided by an element size, not by a literal."
 
+PROPS["C10"]["rules"] = PROPS["C10"]["rules"] + [rules_sd.rule_coord_scan_skips_sds]
+PROPS["C10"]["explanation"] += " (CRDSCAN) a scan for a dimension's coordinate variable never fails on a same-named data set."
+
 NOT_APPLICABLE = {}
 
